@@ -285,6 +285,12 @@ pub fn replay_beh(b: &Beh, kernels: &[String], j: &mut Judge, full: bool, laws: 
             spy_faults(fname, &key, "Vec<f64>->SpyOut<f64>/ret", j, case);
             j.compare(fname, &key, "Vec<f64>->SpyOut<f64>/ret", &got, exps, case);
 
+            // the nulls written as a NaN whose sign bit is set: the same null (Casts.tla NEGNAN)
+            if !nullfree {
+                let vn = enc_vec_negnan(xs);
+                let got = run_valid::<f64, _, f64, Vec<f64>>(k, &vn, w, mp, false);
+                j.compare(fname, &key, "Vec<f64>(nulls as -NaN)->Vec<f64>/ret", &got, exps, case);
+            }
             // a deque whose storage wraps (iterator body + positional reads), and the option view
             let dq: VecDeque<f64> = crate::roll1::rotated(&v, v.len() / 2 + 1);
             let got = run_valid::<f64, _, f64, VecDeque<f64>>(k, &dq, w, mp, false);
